@@ -31,6 +31,7 @@ type raceAccess struct {
 type raceTracker struct {
 	active   bool
 	names    map[*Cell]string
+	mapNames map[*MapV]string
 	cur      []raceAccess
 	logs     map[string][]raceAccess
 	curOnce  string
@@ -65,6 +66,19 @@ func (e *Exec) raceNameCells(v Value, name string, seen map[interface{}]bool) {
 		}
 	case IfaceV:
 		e.raceNameCells(x.v, name, seen)
+	case *MapV:
+		// a map is one location for the race detector (the Go runtime flags any write concurrent with
+		// any other access of the same map); values may point further
+		if x == nil || seen[x] {
+			return
+		}
+		seen[x] = true
+		if _, ok := rt.mapNames[x]; !ok {
+			rt.mapNames[x] = name + "(map)"
+		}
+		for i, c := range x.vals {
+			e.raceNameCells(c.v, fmt.Sprintf("%s{%d}", name, i), seen)
+		}
 	case SliceV:
 		if x.arr != nil && !seen[x.arr] {
 			seen[x.arr] = true
@@ -103,6 +117,30 @@ func (e *Exec) raceOnAccess(c *Cell, write bool) {
 	rt.cur = append(rt.cur, a)
 }
 
+func (e *Exec) raceOnMap(m *MapV, write bool) {
+	rt := e.race
+	if rt == nil || !rt.active || m == nil {
+		return
+	}
+	name, ok := rt.mapNames[m]
+	if !ok {
+		return
+	}
+	site := ""
+	if e.curFrame != nil && e.curFrame.cur != nil {
+		site = e.prog.Fset.Position(e.curFrame.cur.Pos()).String()
+	}
+	a := raceAccess{name: name, write: write, atomic: false, once: rt.curOnce, seq: len(rt.cur), site: site,
+		done: map[string]bool{}, guards: map[string]bool{}}
+	for k := range rt.done {
+		a.done[k] = true
+	}
+	for k := range rt.guards {
+		a.guards[k] = true
+	}
+	rt.cur = append(rt.cur, a)
+}
+
 func raceIntrinsic(name string) (intrinsic, bool) {
 	switch name {
 	case "vRaceBegin":
@@ -113,6 +151,7 @@ func raceIntrinsic(name string) (intrinsic, bool) {
 			rt := e.race
 			rt.tag = e.constStr(args[0], name)
 			rt.names = map[*Cell]string{}
+			rt.mapNames = map[*MapV]string{}
 			e.raceNameCells(args[1], "shared", map[interface{}]bool{})
 			for g, c := range e.globals {
 				e.raceNameCells(c, "global:"+g.String(), map[interface{}]bool{})
